@@ -59,11 +59,20 @@ PRESERVING = {
     'RJ4': ('C12', 'C15', 'C16', 'C20'),
     'RJ5': ('C08', 'C18'),
     'RJ6': ('C04', 'C06', 'C09', 'C12', 'C16', 'C17', 'C18'),
+    # sixth set ("a contributor's clean-up": RAII holder for getenv values, LoadOrUTC, lazily created sink, table-driven header,
+    # emplace_back + back(), brace-initialised results, range predicates for digits, loops over tables of field maxima)
+    'RK1': ('C13', 'C14', 'C15', 'C19', 'C20'),
+    'RK2': ('C01', 'C02', 'C10', 'C11', 'C12', 'C14', 'C19'),
+    'RK3': ('C01', 'C02', 'C06', 'C10', 'C11', 'C12', 'C14'),
+    'RK4': ('C01', 'C09', 'C12', 'C15', 'C16', 'C20'),
+    'RK5': ('C08', 'C18'),
+    'RK6': ('C04', 'C06', 'C09', 'C12', 'C16', 'C17', 'C18'),
 }
 # refactorings on which a rule is allowed to end without a verdict (exit 2, "not recognised"): the form is outside what the
 # engine follows; it must still never report a violation there
 NO_VERDICT_OK = {('RG4c', 'C15'), ('RI4c', 'C15'), ('RI2b', 'C12'), ('RI3a', 'C02'), ('RI3a', 'C06'), ('RI3a', 'C10'), ('RI3a', 'C14'),
-                 ('RJ1a', 'C13'), ('RJ1a', 'C14'), ('RJ2a', 'C12'), ('RJ2b', 'C12'), ('RJ4c', 'C15'), ('RJ5a', 'C08')}
+                 ('RJ1a', 'C13'), ('RJ1a', 'C14'), ('RJ2a', 'C12'), ('RJ2b', 'C12'), ('RJ4c', 'C15'), ('RJ5a', 'C08'),
+                 ('RK2a', 'C12'), ('RK2b', 'C12'), ('RK3c', 'C02'), ('RK3c', 'C06'), ('RK3c', 'C10'), ('RK4d', 'C15')}
 
 
 def run_property(prop, tier, only=None):
